@@ -3,7 +3,8 @@ from .. import common as K
 from .. import ledger as Lg
 
 EXPLANATION = ("Decides totality only: no unaudited panic edge is reachable from the seven Display impls of format.rs "
-               "(arithmetic asserts with overflow checks forced on, indexing, Duration operators, unwraps).")
+               "(arithmetic asserts with overflow checks forced on, indexing, Duration operators, unwraps). One structural faithfulness clause: "
+               "HumanCount takes its digits from u64's own decimal formatting with no float detour.")
 UNDECIDED = "Digit grouping, rounding rule, unit switching and monotonicity are string/number equalities over the input domain; not decided."
 
 ENTRIES = [r"<format::\w+ as std::fmt::Display>::fmt"]
@@ -13,3 +14,24 @@ def run(ctx, crate):
     K.rule_no_unsafe(ctx, crate)
     edges, sc = Lg.run_ledger(ctx, crate, "C15", "R-FORMAT-TOTAL", ENTRIES, floor_edges=10)
     ctx.floor("R-FORMAT-TOTAL", len(sc), 7, crate.config, "Display impls in format.rs")
+    rule_count_exact(ctx, crate)
+
+
+def rule_count_exact(ctx, crate, rule="R-COUNT-EXACT"):
+    """Necessary condition of "HumanCount prints the standard decimal representation of every u64": its digits come
+    from an integer-to-string conversion; the value is never converted to a float on the way (f64 cannot represent
+    every u64 above 2^53)."""
+    cfg = crate.config
+    b = K.find_one(ctx, crate, rule, r"<format::HumanCount as std::fmt::Display>::fmt")
+    if not b:
+        return
+    casts = []
+    for i, j, s in b.assigns():
+        rv = s["rv"]
+        if rv["k"] == "cast" and "IntToFloat" in rv.get("ck", "") and b.slice_rv(i, s).has_field("0", "format::HumanCount"):
+            casts.append(s)
+    ctx.check(not casts, rule, "no-float-detour", b.name, "%s:%d" % (b.file, casts[0].get("line", 0)) if casts else K.fn_loc(b),
+              "the count is never converted to a float", "the u64 count is converted to a float before formatting (inexact above 2^53)", cfg)
+    tos = [c for c in b.calls(r"std::string::ToString::to_string", r"core::fmt::rt::Argument::<'_>::new_display") if (c.callee.get("targs") or [""])[0].replace("&", "") == "u64"]
+    ctx.check(bool(tos), rule, "integer-digits", b.name, K.fn_loc(b), "the digits come from u64's own decimal formatting",
+              "the digits do not come from u64's decimal formatting", cfg)
